@@ -18,19 +18,19 @@ def plan(pid, tier, seed):
         ]
     else:
         mc = [
-            {"module": "Fronts", "cfg": "Fronts_MC_quick.cfg", "emit": True, "sample": 16000, "properties": PROPS, "timeout": 900, "coverage": True},
-            {"module": "Fronts", "cfg": "Fronts_MC_bodies.cfg", "emit": True, "sample": 15000, "properties": PROPS, "timeout": 900, "coverage": True},
-            {"module": "Fronts", "cfg": "Fronts_MC_thorough.cfg", "emit": True, "sample": 30000, "properties": PROPS, "timeout": 3000, "heap": "12g"},
-            {"module": "Fronts", "cfg": "Fronts_MC_py_thorough.cfg", "emit": True, "sample": 25000, "properties": PROPS, "timeout": 3000, "heap": "12g"},
-            {"module": "Fronts", "cfg": "Fronts_MC_py_wide.cfg", "emit": True, "sample": 20000, "properties": PROPS, "timeout": 3000, "heap": "12g"},
-            {"module": "Fronts", "cfg": "Fronts_MC_bodies_wide.cfg", "emit": True, "sample": 25000, "properties": PROPS, "timeout": 3000, "heap": "12g"},
+            {"module": "Fronts", "cfg": "Fronts_MC_quick.cfg", "emit": True, "sample": 12000, "properties": PROPS, "timeout": 900, "coverage": True},
+            {"module": "Fronts", "cfg": "Fronts_MC_bodies.cfg", "emit": True, "sample": 12000, "properties": PROPS, "timeout": 900, "coverage": True},
+            {"module": "Fronts", "cfg": "Fronts_MC_thorough.cfg", "emit": True, "sample": 22000, "properties": PROPS, "timeout": 3000, "heap": "12g"},
+            {"module": "Fronts", "cfg": "Fronts_MC_py_thorough.cfg", "emit": True, "sample": 18000, "properties": PROPS, "timeout": 3000, "heap": "12g"},
+            {"module": "Fronts", "cfg": "Fronts_MC_py_wide.cfg", "emit": True, "sample": 15000, "properties": PROPS, "timeout": 3000, "heap": "12g"},
+            {"module": "Fronts", "cfg": "Fronts_MC_bodies_wide.cfg", "emit": True, "sample": 18000, "properties": PROPS, "timeout": 3000, "heap": "12g"},
         ]
     return {
         "harness": "fronts",
         "needs_coca": False,
         "mc": mc,
         "gen": [],
-        "rand": 700 if quick else 25000,
+        "rand": 700 if quick else 20000,
         "trace": TRACE,
         "run_timeout": 3000,
     }
